@@ -50,7 +50,8 @@ def ORIG_spherical_mask(mask_size, radius=None, center=None, gaussian=0.0, gauss
     mask = np.sqrt((x - center[0]) ** 2 + (y - center[1]) ** 2 + (z - center[2]) ** 2)
     mask[mask > radius] = 0
     mask[mask > 0] = 1
-    mask[center[0], center[1], center[2]] = 1
+    if radius >= 0:  # (edited on review: copy of the original updated to cryoCAT fix bb2db4f)
+        mask[center[0], center[1], center[2]] = 1
 
     mask = postprocess(mask, gaussian, np.asarray([0, 0, 0]), output_name)
 
